@@ -41,7 +41,7 @@ def _(c):
     c.note('defines the stream U; range 0<=U<=1 from (genrand64()>>11)/(2^53-1) with 0<=genrand64()<2^64')
 
 
-@fuc('random', 'binom_rnd_f', props=['C20', 'C19'])
+@fuc('random', 'binom_rnd_f', props=['C20', 'C19', 'C08'])
 def _(c):
     c.requires('N >= 0')
     c.loop(0).invariant('answer == bcount(old(kappa()), i, p)').invariant('kappa() == old(kappa()) + i', label='stream') \
@@ -71,7 +71,7 @@ def _(c):
     c.modifies()
 
 
-@fuc('random', 'exponential_rv', props=['C05', 'C10', 'C11'])
+@fuc('random', 'exponential_rv', props=['C05', 'C10', 'C11', 'C08'])
 def _(c):
     c.requires('Lambda > 0')
     c.requires('U(kappa()) > 0')
@@ -81,7 +81,7 @@ def _(c):
     c.modifies('kappa')
 
 
-@fuc('random', 'sample_discrete', props=['C05', 'C06', 'C10', 'C11', 'C19'])
+@fuc('random', 'sample_discrete', props=['C05', 'C06', 'C10', 'C11', 'C19', 'C08'])
 def _(c):
     c.requires('choices >= 1 and len(data) >= choices')
     c.requires('forall(lambda j: implies(0 <= j and j < choices, data[j] >= 0))')
@@ -96,7 +96,7 @@ def _(c):
     c.modifies('kappa')
 
 
-@fuc('random', 'normal_rv', props=['C10'])
+@fuc('random', 'normal_rv', props=['C10', 'C08'])
 def _(c):
     c.requires('U(kappa()) > 0')
     c.ensures('result == sqrt_(-2 * ln(U(old(kappa())))) * ufun("cos", 2 * 3.141592653589793238462643383279502884 * U(old(kappa()) + 1)) * std + mean',
@@ -106,7 +106,7 @@ def _(c):
     c.note('Box-Muller transform of two stream elements; that it yields N(mean, std^2) is cited')
 
 
-@fuc('random', 'gamma_rv', props=['C10'])
+@fuc('random', 'gamma_rv', props=['C10', 'C08'])
 def _(c):
     c.requires('k >= 1 and theta > 0')
     c.assume('forall(lambda q: U(q) > 0)', 'uniform_rv() == 0 excluded')
